@@ -117,6 +117,14 @@ int main(void)
     FILE *o = stdout;
     pki = getenv("PKI_DIR"); run = getenv("VERIF_RUNDIR");
     if (!pki || !run) { fputs("PKI_DIR/VERIF_RUNDIR unset\n", stderr); return 2; }
+    /* every run starts from an empty directory: a re-run of a (shrunk) history must not see the files or links an earlier
+       run of this check left behind */
+    { static const char *names[] = { "cert.pem", "key.pem", "tc.pem", "crl.pem", "cert2.pem", "key2.pem", "tc2.pem", "lnk-cert.pem", "lnk-tc.pem" };
+      char p[700];
+      for (unsigned i = 0; i < sizeof(names) / sizeof(names[0]); i++) {
+	  snprintf(p, sizeof(p), "%s/%s", run, names[i]); unlink(p);
+	  snprintf(p, sizeof(p), "%s/%s.tmp", run, names[i]); unlink(p);
+      } }
     ctx_store_init();
     static SSL_CTX *slots[64];
     while (fgets(line, sizeof(line), stdin)) {
